@@ -5,6 +5,7 @@ import FlVerif.Lemmas.CodeFllImportEngine
 import FlVerif.Lemmas.CodeFllImportTerm
 import FlVerif.Lemmas.CodeTermParse
 import FlVerif.Lemmas.CodeTermParseOps
+import FlVerif.Lemmas.CodeBlockActImport   -- the factory look-ups of the importer (`FllImporter.tnorm` / `snorm`)
 
 /-! # C14 — FuzzyLite Language export / import round-trips engines
 
@@ -657,5 +658,24 @@ theorem exporter_text_is_driver_text (c : Cfg) (e : Engine) :
 theorem exporter_side_conditions (e : Engine) (h : WellFormed e) :
     Py.Fll.engineNamed e ∧ ∀ b ∈ e.blocks, ∀ r ∈ b.rules, Py.Fll.ruleNamed r :=
   ⟨Py.Fll.wellFormed_named e h, fun b hb r hr => Py.Fll.ruleOK_named r ((h.2.2 b hb).2.2.2.2 r hr)⟩
+
+/-! ## Tie A: importer - the factory look-ups of the norms
+
+`FllImporter.tnorm` / `snorm` (`Gen/CodeFactory.lean`): `None` for an empty value and for `none`, otherwise
+`settings.factory_manager.<kind>.construct(fll)`, the callee being the translated `ConstructionFactory.construct`
+(`C17.code_factoryConstruct`) on the registered names `keys`.  The model reads the norm from the tokens of the value
+(`normOf keys`; `Py.BlockAct.normToks fll` = no token for an empty value, else the one word `fll`). -/
+
+theorem code_importTnorm (keys : List String) (fll : String) :
+    match normOf keys (Py.BlockAct.normToks fll) with
+    | .error e => Gen.Code.FllImporter_tnorm_factory.run keys fll {} = .error (Py.BlockAct.fllErrToPy e)
+    | .ok v => ∃ σ, Gen.Code.FllImporter_tnorm_factory.run keys fll {} = .ok σ ∧ σ.ret = v :=
+  Py.BlockAct.code_importTnorm keys fll
+
+theorem code_importSnorm (keys : List String) (fll : String) :
+    match normOf keys (Py.BlockAct.normToks fll) with
+    | .error e => Gen.Code.FllImporter_snorm_factory.run keys fll {} = .error (Py.BlockAct.fllErrToPy e)
+    | .ok v => ∃ σ, Gen.Code.FllImporter_snorm_factory.run keys fll {} = .ok σ ∧ σ.ret = v :=
+  Py.BlockAct.code_importSnorm keys fll
 
 end C14
